@@ -59,6 +59,10 @@ type vtr struct {
 	startErr  func(n int) error
 	onStart   func(rt TransportRuntime)
 	deadlines []time.Time
+	// failClosed: a write on a closed model socket fails like a real one (off by default: most
+	// harnesses want to SEE a write that should not have happened)
+	failClosed bool
+	refused    int
 }
 
 func (t *vtr) Start(ctx context.Context, rt TransportRuntime) error {
@@ -79,6 +83,10 @@ func (t *vtr) ArmStart()                      { t.arms++ }
 func (t *vtr) Write(ctx context.Context, conn net.Conn, bufs net.Buffers) error {
 	if t.writeErr != nil {
 		return t.writeErr
+	}
+	if nc, ok := conn.(*vnc); ok && nc.closed && t.failClosed {
+		t.refused++
+		return errors.New("model: use of closed network connection")
 	}
 	var b []byte
 	for _, x := range bufs {
